@@ -155,7 +155,9 @@ def main():
             print(report[-1])
             continue
         open(full, 'w').write(src.replace(old, new))
-        r = sh('cd %s && /venv/bin/python -m pytest -q -x -p no:cacheprovider --timeout=900 2>&1 | tail -1' % SCRATCH)
+        # private network namespace: tests/test_mllp.py binds fixed ports (other runs on the machine may hold them)
+        r = sh("unshare -rn sh -c 'ip link set lo up; cd %s && /venv/bin/python -m pytest -q -x -p no:cacheprovider "
+               "--timeout=900 2>&1 | tail -1'" % SCRATCH)
         tail = r.stdout.decode().strip()
         ok = '353 passed' in tail
         d = os.path.join(VERIF, 'mutants', prop)
